@@ -683,7 +683,8 @@ fn block_step_body<const OFF: usize>(left: u8, right: u8) {
         assert_eq!(r, e_r);
     }
     kani::cover!(exp.is_some() && in_str);
-    kani::cover!(exp.is_none() && e_in && e_esc);
+    // a pending escape at the end of the block needs the window to reach byte 63
+    kani::cover!(exp.is_none() && e_in && (e_esc || OFF + 16 < 64));
     kani::cover!(exp.is_none() && e_l > l0 + 2 && e_r > r0 + 1);
 }
 
